@@ -26,6 +26,27 @@ import (
 type knownShapes struct {
 	Funcs  map[string]string      `json:"funcs"`
 	Fields map[string][][2]string `json:"fields"`
+
+	curName map[string]string // name after undoing type renames -> name in the tree (computeAliases)
+}
+
+// replaceTypeName replaces the qualified type name old by new where it stands as a whole name.
+func replaceTypeName(s, old, new string) string {
+	out := ""
+	for {
+		i := strings.Index(s, old)
+		if i < 0 {
+			return out + s
+		}
+		end := i + len(old)
+		whole := end == len(s) || !(s[end] == '_' || s[end] >= '0' && s[end] <= '9' || s[end] >= 'a' && s[end] <= 'z' || s[end] >= 'A' && s[end] <= 'Z')
+		if whole {
+			out += s[:i] + new
+		} else {
+			out += s[:end]
+		}
+		s = s[end:]
+	}
 }
 
 var (
@@ -36,6 +57,7 @@ var (
 	funcAlias     = map[string]string{}            // current name -> pinned name
 	funcAliasRev  = map[string]string{}            // pinned name -> current name
 	fieldAliasMap = map[string]map[string]string{} // struct type -> current field name -> pinned field name
+	typeAliasMap  = map[string]string{}            // current struct type (pkg.Name) -> pinned type
 )
 
 func loadShapes() *knownShapes {
@@ -118,6 +140,69 @@ func computeAliases(pkgs []*packages.Package) {
 		return
 	}
 	cur := collectShapes(pkgs)
+	// struct types first: a pinned struct type that is missing, and exactly one new struct type
+	// of the same package with the same field types (as a multiset), is that type renamed
+	ta := map[string]string{}
+	{
+		sigOf := func(fl [][2]string, self string) string {
+			var ts []string
+			for _, f := range fl {
+				ts = append(ts, strings.ReplaceAll(f[1], self, "<self>"))
+			}
+			sort.Strings(ts)
+			return strings.Join(ts, ";")
+		}
+		pkgOf := func(t string) string {
+			if i := strings.LastIndex(t, "."); i >= 0 {
+				return t[:i]
+			}
+			return t
+		}
+		type tk struct{ pkg, sig string }
+		missingT, freshT := map[tk][]string{}, map[tk][]string{}
+		for t, fl := range known.Fields {
+			if _, ok := cur.Fields[t]; !ok && len(fl) > 0 {
+				k := tk{pkgOf(t), sigOf(fl, t)}
+				missingT[k] = append(missingT[k], t)
+			}
+		}
+		for t, fl := range cur.Fields {
+			if _, ok := known.Fields[t]; !ok && len(fl) > 0 {
+				k := tk{pkgOf(t), sigOf(fl, t)}
+				freshT[k] = append(freshT[k], t)
+			}
+		}
+		for k, olds := range missingT {
+			if news := freshT[k]; len(olds) == 1 && len(news) == 1 {
+				ta[news[0]] = olds[0]
+			}
+		}
+		if len(ta) > 0 {
+			ren := func(x string) string {
+				for n, o := range ta {
+					x = replaceTypeName(x, n, o)
+				}
+				return x
+			}
+			nf := map[string]string{}
+			curName := map[string]string{}
+			for name, sig := range cur.Funcs {
+				nf[ren(name)] = ren(sig)
+				curName[ren(name)] = name
+			}
+			cur.Funcs = nf
+			cur.curName = curName
+			nfl := map[string][][2]string{}
+			for t, fl := range cur.Fields {
+				var l [][2]string
+				for _, f := range fl {
+					l = append(l, [2]string{f[0], ren(f[1])})
+				}
+				nfl[ren(t)] = l
+			}
+			cur.Fields = nfl
+		}
+	}
 	fa, far := map[string]string{}, map[string]string{}
 	// functions: missing pinned names vs new names, per scope and signature
 	type key struct{ scope, sig string }
@@ -138,8 +223,23 @@ func computeAliases(pkgs []*packages.Package) {
 	for k, olds := range missing {
 		news := fresh[k]
 		if len(olds) == 1 && len(news) == 1 {
-			fa[news[0]] = olds[0]
-			far[olds[0]] = news[0]
+			n := news[0]
+			if c, ok := cur.curName[n]; ok {
+				n = c
+			}
+			fa[n] = olds[0]
+			far[olds[0]] = n
+		}
+	}
+	// methods of a renamed type that kept their names are known under the pinned type
+	for renamed, c := range cur.curName {
+		if renamed != c {
+			if _, known0 := known.Funcs[renamed]; known0 {
+				if _, done := fa[c]; !done {
+					fa[c] = renamed
+					far[renamed] = c
+				}
+			}
 		}
 	}
 	// fields
@@ -177,8 +277,24 @@ func computeAliases(pkgs []*packages.Package) {
 			}
 		}
 	}
+	// field aliases are keyed by the current type name
+	if len(ta) > 0 {
+		back := map[string]string{}
+		for n, o := range ta {
+			back[o] = n
+		}
+		fm2 := map[string]map[string]string{}
+		for t, m := range fm {
+			if c, ok := back[t]; ok {
+				fm2[c] = m
+			} else {
+				fm2[t] = m
+			}
+		}
+		fm = fm2
+	}
 	aliasMu.Lock()
-	funcAlias, funcAliasRev, fieldAliasMap = fa, far, fm
+	funcAlias, funcAliasRev, fieldAliasMap, typeAliasMap = fa, far, fm, ta
 	aliasMu.Unlock()
 }
 
@@ -188,10 +304,10 @@ func computeAliases(pkgs []*packages.Package) {
 func applyAliases(pkgs []*packages.Package) map[*ast.File]bool {
 	computeAliases(pkgs)
 	aliasMu.RLock()
-	fa, fm := funcAlias, fieldAliasMap
+	fa, fm, ta := funcAlias, fieldAliasMap, typeAliasMap
 	aliasMu.RUnlock()
 	touched := map[*ast.File]bool{}
-	if len(fa) == 0 && len(fm) == 0 {
+	if len(fa) == 0 && len(fm) == 0 && len(ta) == 0 {
 		return touched
 	}
 	rename := map[types.Object]string{}
@@ -207,6 +323,9 @@ func applyAliases(pkgs []*packages.Package) map[*ast.File]bool {
 				named, ok := obj.Type().(*types.Named)
 				if !ok {
 					continue
+				}
+				if o, ok := ta[typeString(named)]; ok {
+					rename[obj] = o[strings.LastIndex(o, ".")+1:]
 				}
 				for i := 0; i < named.NumMethods(); i++ {
 					m := named.Method(i)
@@ -269,6 +388,9 @@ func aliasSummary() []string {
 		for n, o := range m {
 			out = append(out, t+"."+n+" = ."+o)
 		}
+	}
+	for n, o := range typeAliasMap {
+		out = append(out, "type "+n+" = "+o)
 	}
 	sort.Strings(out)
 	return out
